@@ -1,5 +1,7 @@
 #![allow(dead_code, unused_mut)]
 //! zsim — deterministic simulation with fault injection for zcash/librustzcash.
+mod atomic;
+mod batch;
 mod choices;
 mod mmr;
 mod runner;
@@ -53,11 +55,13 @@ fn scenarios_for(id: &str) -> Vec<Arc<dyn Scenario>> {
         "C01" => vec![Arc::new(walletscen::WalletScenario { prop: "C01" })],
         "C06" => vec![Arc::new(walletscen::WalletScenario { prop: "C06" })],
         "C15" => vec![Arc::new(walletscen::WalletScenario { prop: "C15" })],
+        "C02" => vec![Arc::new(atomic::Atomic)],
+        "C05" => vec![Arc::new(batch::Batch)],
         _ => vec![],
     }
 }
 
-const ALL: &[&str] = &["C03", "C20"];
+const ALL: &[&str] = &["C01", "C02", "C03", "C05", "C06", "C15", "C20"];
 
 fn usage() -> ! {
     eprintln!("usage: zsim <ID> [--tier quick|thorough] [--seed N] [--runs N] [--budget S] [--workers N] [--no-evidence]\n       zsim replay <file> [--quiet]\n       zsim selftest determinism [--n N]");
